@@ -106,3 +106,288 @@ Theorem C16_example_names_follow_package :
   /\ map fst (fst (run example_run)) = [B "cpputest_q_G_.xml"%string; B "cpputest_H.xml"%string].
 Proof. exact example_names. Qed.
 Print Assumptions C16_example_names_follow_package.
+
+(* --------------------------------------------------------------------------------------------------------------
+   THE TRANSLATED SOURCE of JUnitTestOutput's collection of results and of all its writers (gen/Gen_HeapC16.v, regenerated by tools/cxx2heap.py on every run) follows the model's junit_step on the heap and writes, rendered to bytes, exactly write_group
+   -------------------------------------------------------------------------------------------------------------- *)
+From CppUVerif Require Import lib.CSem lib.CMem lib.CHeap gen.Gen_HeapC16 C16_HeapRep C16_HeapTie.
+Local Open Scope Z_scope.
+Theorem C16_junit_layout_is_the_source :
+  off_UtestShell_group_ = Z0 /\
+  off_UtestShell_name_ = Zpos 1 /\
+  off_UtestShell_file_ = Zpos 2 /\
+  off_UtestShell_lineNumber_ = Zpos 3 /\
+  off_UtestShell_next_ = Zpos 4 /\
+  off_UtestShell_isRunAsSeperateProcess_ = Zpos 5 /\
+  off_UtestShell_hasFailed_ = Zpos 6 /\
+  cells_UtestShell = Zpos 7 /\
+  off_TestResult_output_ = Z0 /\
+  off_TestResult_testCount_ = Zpos 1 /\
+  off_TestResult_runCount_ = Zpos 2 /\
+  off_TestResult_checkCount_ = Zpos 3 /\
+  off_TestResult_failureCount_ = Zpos 4 /\
+  off_TestResult_filteredOutCount_ = Zpos 5 /\
+  off_TestResult_ignoredCount_ = Zpos 6 /\
+  off_TestResult_totalExecutionTime_ = Zpos 7 /\
+  off_TestResult_timeStarted_ = Zpos 8 /\
+  off_TestResult_currentTestTimeStarted_ = Zpos 9 /\
+  off_TestResult_currentTestTotalExecutionTime_ = Zpos 10 /\
+  off_TestResult_currentGroupTimeStarted_ = Zpos 11 /\
+  off_TestResult_currentGroupTotalExecutionTime_ = Zpos 12 /\
+  cells_TestResult = Zpos 13 /\
+  off_TestFailure_testName_ = Z0 /\
+  off_TestFailure_testNameOnly_ = Zpos 1 /\
+  off_TestFailure_fileName_ = Zpos 2 /\
+  off_TestFailure_lineNumber_ = Zpos 3 /\
+  off_TestFailure_testFileName_ = Zpos 4 /\
+  off_TestFailure_testLineNumber_ = Zpos 5 /\
+  off_TestFailure_message_ = Zpos 6 /\
+  cells_TestFailure = Zpos 7 /\
+  off_JUnitTestCaseResultNode_name_ = Z0 /\
+  off_JUnitTestCaseResultNode_execTime_ = Zpos 1 /\
+  off_JUnitTestCaseResultNode_failure_ = Zpos 2 /\
+  off_JUnitTestCaseResultNode_ignored_ = Zpos 3 /\
+  off_JUnitTestCaseResultNode_file_ = Zpos 4 /\
+  off_JUnitTestCaseResultNode_lineNumber_ = Zpos 5 /\
+  off_JUnitTestCaseResultNode_checkCount_ = Zpos 6 /\
+  off_JUnitTestCaseResultNode_next_ = Zpos 7 /\
+  cells_JUnitTestCaseResultNode = Zpos 8 /\
+  off_JUnitTestGroupResult_testCount_ = Z0 /\
+  off_JUnitTestGroupResult_failureCount_ = Zpos 1 /\
+  off_JUnitTestGroupResult_totalCheckCount_ = Zpos 2 /\
+  off_JUnitTestGroupResult_startTime_ = Zpos 3 /\
+  off_JUnitTestGroupResult_groupExecTime_ = Zpos 4 /\
+  off_JUnitTestGroupResult_group_ = Zpos 5 /\
+  off_JUnitTestGroupResult_head_ = Zpos 6 /\
+  off_JUnitTestGroupResult_tail_ = Zpos 7 /\
+  cells_JUnitTestGroupResult = Zpos 8 /\
+  off_JUnitTestOutputImpl_results_ = Z0 /\
+  off_JUnitTestOutputImpl_file_ = Zpos 8 /\
+  off_JUnitTestOutputImpl_package_ = Zpos 9 /\
+  off_JUnitTestOutputImpl_stdOutput_ = Zpos 10 /\
+  cells_JUnitTestOutputImpl = Zpos 11 /\ off_JUnitTestOutput_impl_ = Z0 /\ cells_JUnitTestOutput = Zpos 1.
+Proof. exact junit_layout_is_the_source. Qed.
+Print Assumptions C16_junit_layout_is_the_source.
+
+Theorem C16_files_of_group :
+  forall (txt : Z -> bytes) (te : Z -> Z) (k : cstate) (timestr nx : Z) (evs : list hev),
+  files_of txt (evs ++ ev_group te k timestr nx) =
+  files_of txt evs ++ [(k_group k, group_file txt te k timestr)].
+Proof. exact files_of_group. Qed.
+Print Assumptions C16_files_of_group.
+
+Theorem C16_test_started_model :
+  forall (txt : Z -> bytes) (fuel0 : nat) (t0 : Z) (times willruns : list Z) (timestr : Z)
+  (h : heap) (ob ib : nat) (bs : list nat) (k : cstate) (st : jstate) (total : Z)
+  (tb : nat) (sh : cshell) (t : test) (evs : list hev) (nx : Z),
+  cjunit_at h ob ib bs k ->
+  state_rel txt false k st total ->
+  hblock h tb = shell_cells sh ->
+  ~ In tb (jblocks ob ib bs (k_nodes k)) ->
+  shell_rel txt sh t ->
+  BinInt.Z.lt (BinInt.Z.add (BinInt.Z.of_N (j_testCount st)) (Zpos 1)) (BinInt.Z.pow (Zpos 2) (Zpos 64)) ->
+  exists h' : heap,
+  src_junit_printCurrentTestStarted fuel0 h evs nx (t0 :: times) (b2z (negb (t_ignored t)) :: willruns)
+  timestr (HPtr ob Z0) (HPtr tb Z0) =
+  FOk (tt, h', evs ++ [JNew (HPtr (length h) Z0)], nx, times, willruns, timestr) /\
+  junit_at_o txt true h' ob ib (bs ++ [length h]) (junit_step Esc st (ETestStart t)) total /\
+  hload_int h' (HPtr ib (Zpos 3)) = Some t0 /\
+  length h' = S (length h) /\
+  (forall b : nat, (b < length h)%nat -> ~ In b (jblocks ob ib bs (k_nodes k)) -> hblock h' b = hblock h b).
+Proof. exact test_started_model. Qed.
+Print Assumptions C16_test_started_model.
+
+Theorem C16_test_ended_model :
+  forall (txt : Z -> bytes) (fuel0 : nat) (times willruns : list Z) (timestr : Z) (o : bool)
+  (h : heap) (ob ib : nat) (bs : list nat) (k : cstate) (st : jstate) (total : Z)
+  (rb : nat) (r : ctr) (c : N) (evs : list hev) (nx : Z),
+  cjunit_at h ob ib bs k ->
+  state_rel txt o k st total ->
+  j_nodes st <> [] ->
+  hblock h rb = tr_cells r ->
+  ~ In rb (jblocks ob ib bs (k_nodes k)) ->
+  tr_checks r =
+  BinInt.Z.add (BinInt.Z.add total (BinInt.Z.of_N (sum_checks (tl (j_nodes st))))) (BinInt.Z.of_N c) ->
+  exists h' : heap,
+  src_junit_printCurrentTestEnded fuel0 h evs nx times willruns timestr (HPtr ob Z0) (HPtr rb Z0) =
+  FOk (tt, h', evs, nx, times, willruns, timestr) /\
+  junit_at txt h' ob ib bs (junit_step Esc st (ETestEnd c)) total /\
+  length h' = length h /\ (forall b : nat, ~ In b (jblocks ob ib bs (k_nodes k)) -> hblock h' b = hblock h b).
+Proof. exact test_ended_model. Qed.
+Print Assumptions C16_test_ended_model.
+
+Theorem C16_failure_first_model :
+  forall (txt : Z -> bytes) (fuel0 : nat) (times willruns : list Z) (timestr : Z) (o : bool)
+  (h : heap) (ob ib : nat) (bs : list nat) (k : cstate) (st : jstate) (total : Z)
+  (fb0 : nat) (f : cfail) (t : test) (file : bytes) (line : N) (msg : bytes) (n : jnode)
+  (r : list jnode) (evs : list hev) (nx : Z),
+  cjunit_at h ob ib bs k ->
+  state_rel txt o k st total ->
+  j_nodes st = n :: r ->
+  n_failure n = None ->
+  hblock h fb0 = fail_cells f ->
+  ~ In fb0 (jblocks ob ib bs (k_nodes k)) ->
+  txt (cf_file f) = file ->
+  cf_line f = BinInt.Z.of_N line ->
+  txt (cf_msg f) = msg ->
+  BinInt.Z.lt (BinInt.Z.add (BinInt.Z.of_N (j_failureCount st)) (Zpos 1)) (BinInt.Z.pow (Zpos 2) (Zpos 64)) ->
+  exists h' : heap,
+  src_junit_printFailure fuel0 h evs nx times willruns timestr (HPtr ob Z0) (HPtr fb0 Z0) =
+  FOk (tt, h', evs ++ [JNew (HPtr (length h) Z0)], nx, times, willruns, timestr) /\
+  junit_at_o txt o h' ob ib bs (junit_step Esc st (EFailure t file line msg)) total /\
+  length h' = S (length h) /\
+  hblock h' (length h) = fail_cells f /\
+  (forall b : nat, (b < length h)%nat -> ~ In b (jblocks ob ib bs (k_nodes k)) -> hblock h' b = hblock h b).
+Proof. exact failure_first_model. Qed.
+Print Assumptions C16_failure_first_model.
+
+Theorem C16_failure_second_model :
+  forall (txt : Z -> bytes) (fuel0 : nat) (times willruns : list Z) (timestr : Z) (o : bool)
+  (h : heap) (ob ib : nat) (bs : list nat) (k : cstate) (st : jstate) (total : Z)
+  (fb0 : nat) (t : test) (file : bytes) (line : N) (msg : bytes) (n : jnode) (r : list jnode)
+  (x : bytes * N * bytes) (evs : list hev) (nx : Z),
+  cjunit_at h ob ib bs k ->
+  state_rel txt o k st total ->
+  j_nodes st = n :: r ->
+  n_failure n = Some x ->
+  src_junit_printFailure fuel0 h evs nx times willruns timestr (HPtr ob Z0) (HPtr fb0 Z0) =
+  FOk (tt, h, evs, nx, times, willruns, timestr) /\ junit_step Esc st (EFailure t file line msg) = st.
+Proof. exact failure_second_model. Qed.
+Print Assumptions C16_failure_second_model.
+
+Theorem C16_reset_model :
+  forall txt : Z -> bytes,
+  txt Z0 = [] ->
+  forall (fuel0 : nat) (times willruns : list Z) (timestr : Z) (o : bool) (h : heap)
+  (ob ib : nat) (bs : list nat) (k : cstate) (st : jstate) (total : Z) (evs : list hev)
+  (nx : Z),
+  cjunit_at h ob ib bs k ->
+  state_rel txt o k st total ->
+  (length (j_nodes st) < fuel0)%nat ->
+  exists h' : heap,
+  src_junit_resetTestGroupResult fuel0 h evs nx times willruns timestr (HPtr ob Z0) =
+  FOk (tt, h', evs ++ reset_events bs (k_nodes k), nx, times, willruns, timestr) /\
+  junit_at txt h' ob ib [] (reset_state st) total /\
+  length h' = length h /\ (forall b : nat, b <> ib -> hblock h' b = hblock h b).
+Proof. exact reset_model. Qed.
+Print Assumptions C16_reset_model.
+
+Theorem C16_reset_events_deleted :
+  forall (bs : list nat) (cs : list cnode),
+  flat_map deleted (reset_events bs cs) =
+  flat_map (fun bc : nat * cnode => fblock (snd bc) ++ [fst bc]) (combine bs cs).
+Proof. exact reset_events_deleted. Qed.
+Print Assumptions C16_reset_events_deleted.
+
+Theorem C16_group_file_model :
+  forall (txt : Z -> bytes) (te : Z -> Z),
+  (forall id : Z, te id = b2z match txt id with
+  | [] => true
+  | _ :: _ => false
+  end) ->
+  forall (k : cstate) (st : jstate) (total timestr : Z),
+  state_rel txt false k st total ->
+  state_small st ->
+  txt timestr = L_time_string ->
+  k_gexec k = Z0 ->
+  Forall (fun c : cnode => c_exec c = Z0) (k_nodes k) ->
+  group_file txt te k timestr = write_group Esc (j_pkg st) st.
+Proof. exact group_file_model. Qed.
+Print Assumptions C16_group_file_model.
+
+Theorem C16_write_group_model :
+  forall (txt : Z -> bytes) (te : Z -> Z),
+  (forall id : Z, te id = b2z match txt id with
+  | [] => true
+  | _ :: _ => false
+  end) ->
+  forall (fuel0 : nat) (times willruns : list Z) (timestr : Z) (h : heap) (ob ib : nat)
+  (bs : list nat) (k : cstate) (st : jstate) (total : Z) (evs : list hev) (nx : Z),
+  cjunit_at h ob ib bs k ->
+  state_rel txt false k st total ->
+  state_small st ->
+  txt timestr = L_time_string ->
+  k_gexec k = Z0 ->
+  Forall (fun c : cnode => c_exec c = Z0) (k_nodes k) ->
+  (length (j_nodes st) < fuel0)%nat ->
+  exists (h' : heap) (mid : list hev) (nx' : Z),
+  src_junit_writeTestGroupToFile te fuel0 h evs nx times willruns timestr (HPtr ob Z0) =
+  FOk (tt, h', evs ++ [JOpen (k_group k)] ++ mid ++ [JClose], nx', times, willruns, timestr) /\
+  txt (k_group k) = j_group st /\
+  files_of txt (evs ++ [JOpen (k_group k)] ++ mid ++ [JClose]) =
+  files_of txt evs ++ [(k_group k, write_group Esc (j_pkg st) st)] /\
+  hload_int h' (HPtr ib (Zpos 2)) = Some (BinInt.Z.add total (BinInt.Z.of_N (sum_checks (j_nodes st)))) /\
+  length h' = length h /\ (forall b : nat, b <> ib -> hblock h' b = hblock h b).
+Proof. exact write_group_model. Qed.
+Print Assumptions C16_write_group_model.
+
+Theorem C16_group_ended_model :
+  forall (txt : Z -> bytes) (te : Z -> Z),
+  txt Z0 = [] ->
+  (forall id : Z, te id = b2z match txt id with
+  | [] => true
+  | _ :: _ => false
+  end) ->
+  forall (fuel0 : nat) (times willruns : list Z) (timestr : Z) (h : heap) (ob ib : nat)
+  (bs : list nat) (k : cstate) (st : jstate) (total : Z) (rb : nat) (r : ctr) (evs : list hev)
+  (nx : Z),
+  cjunit_at h ob ib bs k ->
+  state_rel txt false k st total ->
+  state_small st ->
+  txt timestr = L_time_string ->
+  Forall (fun c : cnode => c_exec c = Z0) (k_nodes k) ->
+  hblock h rb = tr_cells r ->
+  rb <> ib ->
+  tr_group_ms r = Z0 ->
+  (length (j_nodes st) < fuel0)%nat ->
+  exists (h' : heap) (rest : list hev) (nx' : Z) (content : bytes),
+  src_junit_printCurrentGroupEnded te fuel0 h evs nx times willruns timestr (HPtr ob Z0) (HPtr rb Z0) =
+  FOk (tt, h', evs ++ JOpen (k_group k) :: rest, nx', times, willruns, timestr) /\
+  txt (k_group k) = j_group st /\
+  j_files (junit_step Esc st EGroupEnd) = (createFileName (j_pkg st) (j_group st), content) :: j_files st /\
+  files_of txt (evs ++ JOpen (k_group k) :: rest) = files_of txt evs ++ [(k_group k, content)] /\
+  junit_at txt h' ob ib [] (junit_step Esc st EGroupEnd)
+  (BinInt.Z.add total (BinInt.Z.of_N (sum_checks (j_nodes st)))) /\
+  length h' = length h /\ (forall b : nat, b <> ib -> hblock h' b = hblock h b).
+Proof. exact group_ended_model. Qed.
+Print Assumptions C16_group_ended_model.
+
+Theorem C16_time_attr_small :
+  forall e : Z,
+  BinInt.Z.le Z0 e /\ BinInt.Z.lt e (BinInt.Z.mul (Zpos 1000) (BinInt.Z.pow (Zpos 2) (Zpos 31))) ->
+  time_attr e = time_render e.
+Proof. exact time_attr_small. Qed.
+Print Assumptions C16_time_attr_small.
+
+Theorem C16_ce_open_node :
+  contains
+  match files_of Ex.txt (Ex.events Ex.run_open) with
+  | [] => []
+  | [(_, f)] => f
+  | (_, f) :: _ :: _ => []
+  end (Ex.S "assertions=""-5"""%string) = true /\
+  contains (write_group Esc [] Ex.st_open) (Ex.S "assertions=""0"""%string) = true.
+Proof. exact ce_open_node. Qed.
+Print Assumptions C16_ce_open_node.
+
+Theorem C16_ex_times :
+  contains
+  match files_of Ex.txt (Ex.events Ex.run_ms) with
+  | [] => []
+  | [(_, f)] => f
+  | (_, f) :: _ :: _ => []
+  end (Ex.S "tests=""1"" time=""61.005"""%string) = true /\
+  contains
+  match files_of Ex.txt (Ex.events Ex.run_ms) with
+  | [] => []
+  | [(_, f)] => f
+  | (_, f) :: _ :: _ => []
+  end (Ex.S "assertions=""3"" time=""1.234"""%string) = true /\
+  time_render (Zpos 61005) = Ex.S "61.005"%string /\ time_attr (Zpos 1234) = Ex.S "1.234"%string.
+Proof. exact ex_times. Qed.
+Print Assumptions C16_ex_times.
+
+Theorem C16_ex_model :
+  j_files (junit_step Esc Ex.st_end EGroupEnd) = [(Ex.S "cpputest_G_1_.xml"%string, Ex.expected_file)].
+Proof. exact ex_model. Qed.
+Print Assumptions C16_ex_model.
